@@ -9,22 +9,22 @@ PBF_NOTE = ("Trusts the harness's independent PBF model + wire encoder (internal
 CHECKS = {
  "C01": dict(
   level="exploration",
-  text="1 500 generated files per quick run (16x6 000 thorough) from an independent PBF encoder, neighbouring blocks deliberately differing in optional parts; every object and the header compared field for field with the format's formulas. Sampled, not exhaustive: bounded block counts (<=6) and sizes (<=9 000 elements).",
+  text="1 500 generated files per quick run (16x6 000 thorough) from an independent PBF encoder, neighbouring blocks deliberately differing in optional parts; every object and the header compared field for field with the format's formulas. Files are read through four reader behaviours (incl. final bytes together with io.EOF) and with a nil context; sub-checks add 16-32 MiB blobs and a second scanner alive while the first waits for input; returned objects must not share memory. Sampled, not exhaustive: bounded block counts (<=6) and sizes (<=9 000 elements).",
   note=PBF_NOTE,
   technique="property-based testing (rapid): independent encoder as generator, format-formula oracle, correlated 'flip' generation of neighbouring blocks"),
  "C02": dict(
   level="exploration",
-  text="250 generated (file, decoder count, perturbation plan) cases per quick run under the race detector; the plan delays individual blocks inside decoder callbacks, throttles the reader and the consumer and varies GOMAXPROCS, so later blocks finish before earlier ones in >50% of measured cases. Schedules are sampled, not enumerated.",
+  text="250 generated (file, decoder count, perturbation plan) cases per quick run under the race detector; the plan delays individual blocks inside decoder callbacks, throttles the reader and the consumer and varies GOMAXPROCS, so later blocks finish before earlier ones in >50% of measured cases; sub-checks add blocks above the 8 000-object pre-allocation with a slow consumer and two scanners alive at once (also with GOMAXPROCS=1 and the collector off). Schedules are sampled, not enumerated.",
   note=PBF_NOTE + " The OS scheduler is not controlled; the Go race detector is trusted for the executed interleavings.",
   technique="property-based testing (rapid) of schedules: generated perturbation plans + model/snapshot oracle + Go race detector"),
  "C06": dict(
   level="fault_enumeration",
-  text="Per generated file EVERY byte offset is cut and every enumerated damage class is applied at the header block and first/last data block (thorough: every block), each scan isolated in a child process with a hang watchdog; ~6 600 scans per quick run. The files themselves (10 small ones quick, 120 thorough) are sampled; thorough adds native fuzzing of the byte stream for crash/hang only.",
+  text="Per generated file EVERY byte offset is cut and every enumerated damage class is applied at the header block and first/last data block (thorough: every block), each scan isolated in a child process with a hang watchdog; readers that fail with a transport error instead of ending are cut at every block boundary and every seventh offset; ~8 000 scans per quick run. The files themselves (10 small ones quick, 120 thorough) are sampled; thorough adds native fuzzing of the byte stream for crash/hang only.",
   note=PBF_NOTE + " A zlib bit flip counts as damage only if Go's compress/zlib rejects the stream or inflates it differently. One listed known finding (zlib stream end not verified by the czlib dependency) is excluded by construction and witnessed deterministically.",
   technique="fault enumeration driven by property-based generation (rapid): exhaustive cut points + damage-class x position matrix per file, prefix/err oracle from the model, child-process isolation; native go fuzzing as robustness supplement"),
  "C07": dict(
   level="exploration",
-  text="200 PBF and 1 000 XML call histories per quick run (Header, k Scans, Close / cancel from the scanning or a second goroutine, further Scan/Err/Close calls) on files of 60-500 blocks incl. endless and truncated inputs, under the race detector; oracle is a model of the statement's Err precedence, a byte bound on what the reader was asked for, goroutine-dump cleanliness and a 20 s hang watchdog. Histories and schedules are sampled.",
+  text="200 PBF and 1 000 XML call histories per quick run (Header, k Scans, Close / cancel from the scanning or a second goroutine, further Scan/Err/Close calls) on files of 60-500 blocks incl. endless, truncated (EOF or transport error), resumed (headerless) inputs and first blocks that are rejected, under the race detector; oracle is a model of the statement's Err precedence, a byte bound on what the reader was asked for, goroutine-dump cleanliness and a 20 s hang watchdog. Histories and schedules are sampled.",
   note=PBF_NOTE + " Read-ahead allowance of 3*procs+30 blocks; either error accepted after cancel+Close; nil accepted after a complete scan.",
   technique="stateful property-based testing (rapid-generated call histories executed against a reference model) + Go race detector + goroutine-dump and byte-count observers"),
  "C08": dict(
@@ -34,7 +34,7 @@ CHECKS = {
   technique="property-based testing (rapid): metamorphic subsequence relation against the model + snapshot immutability oracle"),
  "C09": dict(
   level="exploration",
-  text="500 generated files per quick run; counters checked after EVERY Scan (all stop positions of each file) and a second scanner started at EVERY reportable block offset, compared with the model's remaining objects; files are sampled.",
+  text="500 generated files per quick run; counters checked after EVERY Scan (all stop positions of each file) and a second scanner started at EVERY reportable block offset, compared with the model's remaining objects; resumed scanners use up to 16 decoders, may call Header(), and one case in four resumes while the first scanner is still open and waiting for input; files are sampled.",
   note=PBF_NOTE + " Block byte offsets come from the harness encoder.",
   technique="property-based testing (rapid) with per-file enumeration of all stop positions and resume offsets; oracle = encoder offsets + model suffix"),
  "C10": dict(
